@@ -14,7 +14,7 @@ package certstore
 
 //@ pred nextInstanceOf(cs *Store) = ite(cs.latestCertificate == nil, cs.firstInstance, cs.latestCertificate.GPBFTInstance + 1)
 
-//@ pred storeInv(cs *Store) = cs.powerTableFrequency > 0
+//@ pred storeInv(cs *Store) = cs.powerTableFrequency > 0 && cs.powerTableFrequency <= 1048576
 //@ pred noWrap(cs *Store) = cs.latestCertificate == nil || cs.latestCertificate.GPBFTInstance < 18446744073709551614
 
 //@ func (*Store).Put
@@ -50,7 +50,7 @@ package certstore
 
 //@ func (*Store).GetRange
 //@   property C09
-//@   requires end < 18446744073709551615
+//@   requires end < 18446744073709551615 && (start <= end ==> end - start < 1048576)
 //@   modifies auto
 //@   maypanic
 //@   ensures[complete_range_or_not_found] result1 == nil ==> len(result0) == end - start + 1
